@@ -388,6 +388,19 @@ def rule_emit(cx, rid):
         ("else/nested-if-then-more", [cls["IfStatement"](branches=[CB(condition="H_ca", body=[S(ms=1)])], else_body=[cls["IfStatement"](branches=[CB(condition="H_cb", body=[S(ms=2)])], else_body=[S(ms=4)]), S(ms=5), S(ms=6)])], ["H_ca", "H_cb", "delay(1)", "delay(2)", "delay(4)", "delay(5)", "delay(6)"]),
         ("while/nested-empty", [cls["WhileLoop"](condition="H_cw", body=[cls["IfStatement"](branches=[CB(condition="H_ca", body=[])], else_body=[])])], ["H_cw", "H_ca"]),
     ]
+    # every if/elif/else chain of up to three branches with every subset of bodies empty
+    import itertools as _it
+    for nb in (1, 2, 3):
+        for empt in _it.product((False, True), repeat=nb + 1):
+            brs, must_ = [], []
+            for i_ in range(nb):
+                brs.append(CB(condition=f"H_c{i_}", body=([] if empt[i_] else [S(ms=11 + i_)])))
+                must_.append(f"H_c{i_}")
+                if not empt[i_]:
+                    must_.append(f"delay({11 + i_})")
+            if not empt[nb]:
+                must_.append("delay(19)")
+            shapes.append((f"if-chain[{''.join('e' if e_ else 'b' for e_ in empt[:nb])}|else={'e' if empt[nb] else 'b'}]", [cls["IfStatement"](branches=brs, else_body=([] if empt[nb] else [S(ms=19)]))], must_))
     fd = cls["FunctionDef"]
     for label, nodes, must in shapes:
         if nodes is None:
@@ -661,3 +674,19 @@ def run(cx):
                 r.check(not shadows, f"arm[{rx}]/shadowed-by[{seen_unguarded[0]}]", (pm, st), f"arm {rx} (.{method}) can never be reached: the earlier unguarded arm {seen_unguarded[0]} accepts the same calls")
         r.ok(f".{method}(: {[a[0] for a in lst]}")
     cx.extra["arms"] = len(arms)
+
+    # ---- C07-SPACING -------------------------------------------------------------------------
+    from .. import spacing
+    r = cx.rule("C07-SPACING", "optional spacing inside a line never changes the IR: every statement of three canonical scripts is re-spaced token by token in nine ways (no blank after a keyword, blank before a call parenthesis, inside brackets, around the dot, before the colon, operators tight, double blanks, tabs, trailing blanks; Python's tokenizer certifies the token stream is unchanged) and parse() is partially evaluated on each variant", floor=150, exhaustive=True)
+    psl = pm.func("_parse_simple_lines")
+    seen = set()
+    for nm, i, sk, k, v, ref_kind, same, raised, _err in spacing.evaluate():
+        if ref_kind != "return":
+            raise AnalysisError(f"the canonical script `{nm}` is no longer accepted by parse()")
+        key = f"spacing[{sk}/{k}]"
+        if same:
+            r.ok(None if key in seen else f"{sk}: {k}")
+            seen.add(key)
+        else:
+            canon = spacing.SCRIPTS[nm].split("\n")[i].strip()
+            r.fail(key, (pm, psl), f"`{v.strip()}` (script `{nm}`) {'raises ' + raised if raised else 'is parsed to a different program'} than `{canon}`: the two lines are the same Python token stream", detail={"script": nm, "line": i, "variant": v})
